@@ -58,6 +58,8 @@ function* cases(tier) {
       yield { ts: false, tag, attrs: [{ n: n1, v: v1 }, { n: n2, v: v2 }], ch: 'none', pragma: 'none' };
     }
   }
+  // (2b) the same attribute name written twice (every name × two value kinds, both orders)
+  for (const tag of ['div', 'Comp']) for (const n of ATTR_NAMES) if (n[0] !== '{') for (const [v1, v2] of [['x', 'x'], ['x', 'str'], ['str', 'x'], ['absent', 'x'], ['arr1', 'arrArg']]) for (const o of [undefined, { mergeProps: false }, { transformOn: true, optimize: true }]) yield { ts: false, tag, attrs: [{ n, v: v1 }, { n, v: v2 }], ch: 'none', pragma: 'none', o };
   // (3) pragma comments × option corners × a few shapes
   for (const pragma of Object.keys(PRAGMAS)) for (const o of OPT_CORNERS) for (const tag of ['div', 'Comp', 'frag', 'member']) for (const ch of ['none', 'text', 'el']) {
     yield { ts: false, tag, attrs: tag === 'frag' ? [] : [{ n: 'p', v: 'x' }], ch, pragma, o };
